@@ -67,7 +67,7 @@ def run(ck):
 
     # ---------------- R1 ----------------
     nsys = 0
-    for f in prog.funcs.values():
+    for f in prog.library_funcs():
         for e in f.calls(lambda e: (e.get("callee") or "") in ("send", "sendfile", "SSL_write", "SSL_sendfile", "sendmsg", "sendto", "writev", "write")
                          and not (e.get("cfile") or "").startswith(facts.REPO)):
             base = f.base
